@@ -4,7 +4,9 @@ namespace AxVerif.Value
 open AxVerif
 
 def parseDefects (flags : List String) : Defects :=
-  { blobLenOverflow := flags.contains "blobLenOverflow" }
+  { blobLenOverflow := flags.contains "blobLenOverflow",
+    boolWriteWholeTail := flags.contains "boolWriteWholeTail",
+    castSaturates := flags.contains "castSaturates" }
 
 def i64? (s : String) : Option Int :=
   match s.toInt? with
@@ -18,6 +20,34 @@ def u64? (s : String) : Option Nat :=
 
 def ordName : Ordering → String
   | .lt => "lt" | .eq => "eq" | .gt => "gt"
+
+def kind? (s : String) : Option Kind := Kind.all.find? (fun k => k.name == s)
+
+/-- value syntax: `n`, `b:0|1`, `i:<dec>` (Int), `I:` (BigInt), `u:` (UInt), `U:` (BigUInt), `f:<bits>`, `d:<bits>`, `x:<hex|->` -/
+def value? (s : String) : Option Value :=
+  if s = "n" then some .null else
+  match s.splitOn ":" with
+  | ["b", "0"] => some (.bool false)
+  | ["b", "1"] => some (.bool true)
+  | ["i", v] => (v.toInt?).bind fun i => if decide (Value.Wf (.int i)) then some (.int i) else none
+  | ["I", v] => (v.toInt?).bind fun i => if decide (Value.Wf (.bigint i)) then some (.bigint i) else none
+  | ["u", v] => (v.toNat?).bind fun n => if decide (Value.Wf (.uint n)) then some (.uint n) else none
+  | ["U", v] => (v.toNat?).bind fun n => if decide (Value.Wf (.biguint n)) then some (.biguint n) else none
+  | ["f", v] => (v.toNat?).bind fun n => if decide (Value.Wf (.float n)) then some (.float n) else none
+  | ["d", v] => (v.toNat?).bind fun n => if decide (Value.Wf (.double n)) then some (.double n) else none
+  | ["x", h] => (bytesOfHex h).map .blob
+  | _ => none
+
+def showValue : Value → String
+  | .null => "n"
+  | .bool b => if b then "b:1" else "b:0"
+  | .int i => s!"i:{i}"
+  | .bigint i => s!"I:{i}"
+  | .uint n => s!"u:{n}"
+  | .biguint n => s!"U:{n}"
+  | .float b => s!"f:{b}"
+  | .double b => s!"d:{b}"
+  | .blob d => s!"x:{hexOrDash d}"
 
 def step (D : Defects) (line : String) : String :=
   match words line with
@@ -67,6 +97,43 @@ def step (D : Defects) (line : String) : String :=
     | some a, some b =>
       let o := Blob.cmp a b
       s!"{ordName o} eq={o == .eq}"
+    | _, _ => "bad-op"
+  | ["ser", v] => match value? v with
+    | some v => match serialize v with
+      | .ok bs =>
+        let rt := match deserialize D v.kind bs 0 with
+          | .ok (v', c) => if v' = v ∧ c = bs.length then "rt=ok" else "rt=DIFF"
+          | .error _ => "rt=DIFF"
+        s!"ok {hexOrDash bs} {rt}"
+      | .error e => s!"err {e.name}"
+    | none => "bad-op"
+  | ["wr", v, c, extra] => match value? v, c.toNat?, extra.toNat? with
+    | some v, some c, some extra =>
+      if c > 4096 ∨ extra > 4096 then "bad-op" else
+      match serialize v with
+      | .error e => s!"err {e.name}"
+      | .ok bs =>
+        let buf : Bytes := List.replicate (alignUp c v.kind.align + bs.length + extra) 0
+        match writeTo D v buf c with
+        | .ok (some (buf', c')) =>
+          let rt := match deserialize D v.kind buf' c with
+            | .ok (v', c'') => if v' = v ∧ c'' = c' then "rt=ok" else "rt=DIFF"
+            | .error _ => "rt=DIFF"
+          s!"ok cur={c'} buf={hexOrDash buf'} {rt}"
+        | .ok none => "nofit"
+        | .error e => s!"err {e.name}"
+    | _, _, _ => "bad-op"
+  | ["de", k, c, h] => match kind? k, c.toNat?, bytesOfHex h with
+    | some k, some c, some buf =>
+      if c > buf.length then "bad-op" else
+      match deserialize D k buf c with
+      | .ok (v, c') => s!"ok {showValue v} cur={c'}"
+      | .error e => s!"err {e.name}"
+    | _, _, _ => "bad-op"
+  | ["cast", v, k] => match value? v, kind? k with
+    | some v, some k => match tryCast D v k with
+      | .ok w => s!"ok {showValue w}"
+      | .error e => s!"err {e.name}"
     | _, _ => "bad-op"
   | _ => "bad-op"
 
